@@ -19,6 +19,7 @@ CONSTANTS ND,          \* number of destinations
           Dynamic,     \* DYNAMIC_ROUTER
           MaxRetries,  \* DYNAMIC_ROUTER_MAX_RETRIES
           RF,          \* replication factor of the (abstract) router
+          Ratio,       \* USE_RATIO_RESET (connections of destinations that fall behind are reset)
           PostTake,    \* TRUE: the low-watermark test uses the queue length after the take (repaired code)
           MaxItems, MaxConnEvents
 
@@ -113,7 +114,12 @@ SendQ(st, d, k, ov) ==
   LET n == Len(st.q[d]) IN
   IF ~HasProto(st, d) \/ st.tp[d] \/ n = 0 THEN <<st, k>>
   ELSE LET take == Min2(MaxPerMsg, n)
-           s1 == [st EXCEPT !.q[d] = SubSeq(@, take + 1, n),
+           \* connectionQualityMonitor() / resetConnectionForQualityReasons(): the previous interval's statistics say the
+           \* destination falls behind -> protocol.disconnect() (the transport closes once its buffer is flushed; the
+           \* connectionLost callback is a later ConnLost).  The batch taken next is still WRITTEN: a closing transport
+           \* transmits what it is given before it closes - nothing taken from the queue may be dropped here.
+           s0 == IF Ratio /\ st.slow /\ st.pconn[d] THEN [st EXCEPT !.pconn[d] = FALSE, !.rclosed[d] = TRUE] ELSE st
+           s1 == [s0 EXCEPT !.q[d] = SubSeq(@, take + 1, n),
                             !.wire[d] = Append(@, SubSeq(st.q[d], 1, take))]
            \* checkQueue(): queueEmpty fires the pending stop
            s2 == IF s1.q[d] = <<>> /\ s1.stopReq[d] THEN StopConnecting(s1, d) ELSE s1
@@ -151,10 +157,10 @@ StopAll(st, ds) ==
 ArriveF(st, i, isHi, ov)  == RouteSend(st, i, isHi, RouteOf(i, st, 1, ov))
 SendTimerF(st, d, ov)     == SendQ([st EXCEPT !.st[d] = FALSE], d, 1, ov)[1]
 ConnMadeF(st, d, ov)      ==
-  LET s1 == [st EXCEPT !.cs[d] = "connected", !.pconn[d] = TRUE, !.tp[d] = FALSE, !.retries[d] = 0]
+  LET s1 == [st EXCEPT !.cs[d] = "connected", !.pconn[d] = TRUE, !.tp[d] = FALSE, !.retries[d] = 0, !.rclosed[d] = FALSE]
       r == IF ~s1.has[d] THEN ResumeRecv([s1 EXCEPT !.has[d] = TRUE], 1, ov) ELSE <<s1, 1>>
   IN SendQ(r[1], d, r[2], ov)[1]
-ConnLostF(st, d, ov)      == DestDown(Retry([st EXCEPT !.pconn[d] = FALSE, !.tp[d] = FALSE], d), d, 1, ov)[1]
+ConnLostF(st, d, ov)      == DestDown(Retry([st EXCEPT !.pconn[d] = FALSE, !.tp[d] = FALSE, !.rclosed[d] = FALSE], d), d, 1, ov)[1]
 ConnFailedF(st, d, ov)    == DestDown(Retry(st, d), d, 1, ov)[1]
 RetryTimerF(st, d)        == [st EXCEPT !.rt[d] = FALSE, !.cs[d] = "connecting"]
 TPauseF(st, d)            == [st EXCEPT !.tp[d] = TRUE]
@@ -162,6 +168,8 @@ TResumeF(st, d, ov)       == SendQ([st EXCEPT !.tp[d] = FALSE], d, 1, ov)[1]
 StopF(st)                 == [StopAll(st, Dest) EXCEPT !.stopped = TRUE]
 RConnectF(st, c)          == [st EXCEPT !.rconn[c] = TRUE, !.prod[c] = ~st.rpaused]
 RDisconnectF(st, c)       == [st EXCEPT !.rconn[c] = FALSE, !.prod[c] = TRUE]
+\* instrumentation.recordMetrics(): the statistics of the interval just ended say "behind" (b) or "keeping up"
+QualityF(st, b)           == [st EXCEPT !.slow = b]
 
 InitState ==
   [q |-> [d \in Dest |-> <<>>], aout |-> [d \in Dest |-> <<>>],
@@ -172,7 +180,8 @@ InitState ==
    fullCalled |-> [d \in Dest |-> FALSE], trying |-> [d \in Dest |-> TRUE],
    stopReq |-> [d \in Dest |-> FALSE], stopped |-> FALSE,
    fake |-> <<>>, tooFull |-> FALSE, rpaused |-> FALSE,
-   rconn |-> [c \in Recv |-> FALSE], prod |-> [c \in Recv |-> TRUE], closedBad |-> FALSE]
+   rconn |-> [c \in Recv |-> FALSE], prod |-> [c \in Recv |-> TRUE], closedBad |-> FALSE, slow |-> FALSE,
+   rclosed |-> [d \in Dest |-> FALSE]]     \* the connection is closing because of a quality reset
 
 Init == /\ s = InitState /\ nitems = 0 /\ hi = {} /\ nconn = 0 /\ lastEv = <<"init", 0>>
 
@@ -229,7 +238,11 @@ RDisconnect(c) == /\ s.rconn[c]
                   /\ s' = RDisconnectF(s, c) /\ lastEv' = <<"RDisconnect", c>>
                   /\ UNCHANGED <<nitems, hi, nconn>>
 
-Next == \/ \E b \in BOOLEAN : Arrive(b)
+Quality(b) == /\ Ratio /\ s.slow # b /\ ~s.stopped
+              /\ s' = QualityF(s, b) /\ lastEv' = <<IF b THEN "Slow" ELSE "Fast", 0>>
+              /\ UNCHANGED <<nitems, hi, nconn>>
+
+Next == \/ \E b \in BOOLEAN : Arrive(b) \/ Quality(b)
         \/ \E d \in Dest : \/ SendTimer(d) \/ ConnMade(d) \/ ConnLost(d) \/ ConnFailed(d)
                            \/ RetryTimer(d) \/ TPause(d) \/ TResume(d)
         \/ Stop
